@@ -13,7 +13,7 @@
 (***************************************************************************)
 EXTENDS Naturals, Sequences, FiniteSets, TLC, Json
 
-CONSTANTS Groups, Methods, MaxLen, Start
+CONSTANTS Groups, Methods, MaxLen, Start, MoveSet
 
 VARIABLES clock, runs, hist
 vars == <<clock, runs, hist>>
@@ -26,7 +26,7 @@ Move(c, mv) ==
     [] mv = "plus1"    -> c + 1
     [] mv = "to13"     -> IF c % Day < T1300 THEN (c \div Day) * Day + T1300 ELSE c + 1
     [] mv = "midnight" -> ((c \div Day) + 1) * Day
-Moves == {"same", "plus1", "to13", "midnight"}
+Moves == MoveSet       \* a subset of {"same", "plus1", "to13", "midnight"}
 
 Init == clock = Start /\ runs = <<>> /\ hist = <<>>
 
